@@ -57,6 +57,34 @@ pub fn run(seed: u64, shard: u64, cases: u64, rep: &mut Report) {
         if c::decrypt(&blob, &bitcoin::Txid::from_byte_array(kb)).is_ok() {
             r.violation("C17:wrong-key-bit", "blob decrypts under an id differing in one bit", replay.clone());
         }
+        // ids sharing the 16-byte locator (differing only in the second half), used back to back with k
+        for _ in 0..3 {
+            let mut ks = *k.as_byte_array();
+            let bit = 128 + rng.usize(128);
+            ks[bit / 8] ^= 1 << (bit % 8);
+            let ks = bitcoin::Txid::from_byte_array(ks);
+            r.count("same_locator_id_pairs", 1);
+            let _ = c::decrypt(&blob, &k);
+            if c::decrypt(&blob, &ks).is_ok() {
+                r.violation("C17:wrong-key-same-locator", "blob decrypts under a different id that shares its locator", replay.clone());
+            }
+            let _ = c::encrypt(&tx, &k);
+            match c::encrypt(&tx, &ks) {
+                Ok(b2) => {
+                    if b2 == blob {
+                        r.violation("C17:same-ciphertext-same-locator", "two ids sharing a locator produce the same ciphertext", replay.clone());
+                    }
+                    match c::decrypt(&b2, &ks) {
+                        Ok(t) if t == tx => {}
+                        _ => r.violation("C17:roundtrip", "round trip fails for an id used right after another one with the same locator", replay.clone()),
+                    }
+                    if c::decrypt(&b2, &k).is_ok() {
+                        r.violation("C17:wrong-key-same-locator", "blob decrypts under a different id that shares its locator", replay.clone());
+                    }
+                }
+                Err(_) => r.violation("C17:encrypt-error", "encrypt failed", replay.clone()),
+            }
+        }
         // bit flips: all for short blobs, a sample for long ones
         let nbits = blob.len() * 8;
         let flips: Vec<usize> = if nbits <= 2048 { (0..nbits).collect() } else { (0..256).map(|_| rng.usize(nbits)).collect() };
